@@ -41,6 +41,12 @@ type Harness struct {
 	// After runs on the test goroutine after the bubble has ended (outside the simulation).
 	// It may return a failure found by an expensive oracle over the recorded history.
 	After func(mode string, ri *RunInfo) *simrt.Failure
+	// Warmup runs once per process, outside any simulation, before the first run.
+	Warmup func(mode string)
+	// WarmupRuns is the number of discarded simulated runs executed at process start so
+	// that lazily initialised process-global state (first-use caches, sync.Once, name
+	// tables) is the same for every counted run, whatever ran before it.
+	WarmupRuns int
 }
 
 // Msg is one line of the worker protocol (JSON on stdout, prefixed with "@@").
@@ -100,6 +106,12 @@ func Main(t *testing.T, h Harness) {
 	time.Sleep(30 * time.Millisecond)
 	mode := os.Getenv("VERIF_MODE")
 	prop := os.Getenv("VERIF_PROPERTY")
+	if h.Warmup != nil {
+		h.Warmup(mode)
+	}
+	for i := 0; i < h.WarmupRuns; i++ {
+		runOne(t, h, mode, simrt.NewTape(uint64(0xabcdef00+i)), &RunInfo{})
+	}
 	if replay := os.Getenv("VERIF_REPLAY"); replay != "" {
 		rf, err := simrt.ReadReplayFile(replay)
 		if err != nil {
